@@ -105,7 +105,7 @@ func runCrashChild(args []string) {
 		writeLine(J{"ev": "begin", "k": k, "a": op})
 		var r J
 		if name == "Sleep" {
-			time.Sleep(time.Duration(num(op, "d")) * time.Second)
+			time.Sleep(time.Duration(num(op, "d")) * tick)
 			r = res(nil, nil)
 		} else {
 			r, err = w.storeOp(op)
